@@ -573,6 +573,7 @@ class Runner:
         self.model = M.ModelDoc(version)
         self.gfa = gfapy.Gfa(version=version, vlevel=vlevel)
         self.removed = []  # gfapy line objects that were removed (ghost detection)
+        self.instances = []  # Line objects handed to add_line
 
     def find_line(self, rec):
         """The gfapy line that corresponds to a model record."""
@@ -603,7 +604,10 @@ class Runner:
             rec = G.Rec.from_plain(op[1], self.version)
             text = rec.text()
             if len(op) > 2 and op[2]:
-                self.gfa.add_line(gfapy.Line(text, version=self.version, vlevel=self.vlevel))
+                inst = gfapy.Line(text, version=self.version, vlevel=self.vlevel)
+                if inst.record_type != "H":
+                    self.instances.append(inst)
+                self.gfa.add_line(inst)
             else:
                 self.gfa.add_line(text)
             self.model.add(rec)
@@ -665,6 +669,23 @@ class Runner:
                 line.set(n, v)
         else:
             raise ValueError("unknown op %r" % (op,))
+
+    def stale_instances(self):
+        """Line objects given to add_line: an object reports to be connected exactly when it is
+        one of the lines of the Gfa (an object merged into or replaced by another line is not)."""
+        from . import observe as O
+        ids = set(id(l) for l in O.all_lines(self.gfa, split_headers=False))
+        out = []
+        for inst in self.instances:
+            try:
+                c = inst.is_connected()
+            except Exception as e:
+                out.append("ownership: is_connected() of %r raised %s" % (str(inst), type(e).__name__))
+                continue
+            if c != (id(inst) in ids):
+                out.append("ownership: the Line object %r given to add_line reports is_connected() == %r but %s one of the lines of the Gfa" % (
+                    str(inst), c, "is" if id(inst) in ids else "is not"))
+        return out
 
     def _note_removed(self, rec, but=None):
         for g in self.model.cascade(rec):
